@@ -20,7 +20,10 @@ VTIME_DIRS = ["agent/consul/state", "agent/consul/fsm", "agent/structs", "intern
 # packages whose "sync" import is rewritten to the scheduling shim (falls through to the real
 # primitives unless a schedule exploration is running)
 VSYNC_DIRS = ["internal/storage/inmem", "agent/consul/stream"]
+# packages whose timers are fired by the harness (own Timer type): "time" -> vtimer
+VTIMER_DIRS = ["agent/local"]
 REWRITES = [
+    (VTIMER_DIRS, re.compile(r'^(\s*)"time"\s*$', re.M), r'\1time "github.com/hashicorp/consul/internal/verifmc/vtimer"'),
     (VTIME_DIRS, re.compile(r'^(\s*)"time"\s*$', re.M), r'\1time "github.com/hashicorp/consul/internal/verifmc/vtime"'),
     (VSYNC_DIRS, re.compile(r'^(\s*)"sync"\s*$', re.M), r'\1sync "github.com/hashicorp/consul/internal/verifmc/vsync"'),
 ]
